@@ -10,7 +10,10 @@ mod model;
 mod rng;
 mod simdisk;
 
+mod p01;
+mod p02;
 mod p11;
+mod rsim;
 mod p13;
 
 use driver::*;
@@ -20,6 +23,14 @@ use std::path::PathBuf;
 macro_rules! families {
     ($id:expr, $f:ident => $body:expr) => {
         match $id {
+            "C01" => {
+                type $f = p01::C01;
+                $body
+            }
+            "C02" => {
+                type $f = p02::C02;
+                $body
+            }
             "C11" => {
                 type $f = p11::C11;
                 $body
